@@ -20,6 +20,7 @@ def sym_model(ctx, dtype='float', var_positive=False, name=''):
         nz = [[G.T(sym[i][j] != 0) if i != j else False for j in range(p)] for i in range(p)]
         e.assume(G.Z(G.acyclic(nz)))
         I._apply_fix(e, sym, ctx.params)
+        e._ensure_model()
         rows = [[0] * p for _ in range(p)]
         pat = [[0] * p for _ in range(p)]
         for i in range(p):
